@@ -11,9 +11,9 @@ PKGS = [{"dir": WH, "name": "wh"}, {"dir": WB, "name": "main", "rt": False}, {"d
 # i32 arguments (addresses, sizes, loop counts, table indices) of these exports are assumed < max; all others unconstrained
 ARGMAX = [("mem/", 96), ("align/", 96), ("ctl/loop", 6), ("ctl/grow", 3), ("heap/", 96), ("prog/runtime.", 96),
           ("prog/runtime.Block.", 2), ("prog/runtime.Block.HeapAlloc", 4), ("prog/t_loop", 6), ("prog/t_recursion", 7),
-          ("decl/data", 300), ("decl/misc", 8), ("named/", 8), ("index/", 8)]
-NAMES = ["ops", "mem", "align", "ctl", "decl", "named", "index", "index0", "reexp", "heap", "prog"]
-HAND = {"ctl": "c04_ctl.wat", "decl": "c05_decl.wat", "named": "c06_named.wat", "index": "c06_index.wat", "index0": "c06_index0.wat", "reexp": "c06_reexport.wat"}
+          ("decl/data", 300), ("decl/misc", 8), ("named/", 8), ("index/", 8), ("indexelem/", 4)]
+NAMES = ["ops", "mem", "align", "ctl", "decl", "named", "index", "index0", "indexelem", "reexp", "heap", "prog"]
+HAND = {"ctl": "c04_ctl.wat", "decl": "c05_decl.wat", "named": "c06_named.wat", "index": "c06_index.wat", "index0": "c06_index0.wat", "reexp": "c06_reexport.wat", "indexelem": "c06_index_elem.wat"}
 
 
 def corpus(scratch, wdir, ov):
